@@ -43,6 +43,26 @@ pub mod scope_analyzer;
 pub mod statement;
 pub mod visitor;
 
+/// Verification hooks (only compiled with `--cfg boa_verif`).
+#[cfg(boa_verif)]
+pub mod verif {
+    use std::cell::Cell;
+
+    thread_local!(static FORCE_ESCAPE: Cell<bool> = const { Cell::new(false) });
+
+    /// When set, every binding created or analysed on this thread is treated as escaping
+    /// (it lives in an environment instead of a register).
+    pub fn set_force_escape(on: bool) {
+        FORCE_ESCAPE.with(|c| c.set(on));
+    }
+
+    /// Current state of the force-escape switch.
+    #[must_use]
+    pub fn force_escape() -> bool {
+        FORCE_ESCAPE.with(Cell::get)
+    }
+}
+
 use boa_interner::{Interner, Sym, ToIndentedString, ToInternedString};
 use boa_string::{JsStr, JsString};
 use expression::Identifier;
